@@ -6,6 +6,7 @@ import (
 	"os"
 	"os/exec"
 	"path/filepath"
+	"strings"
 	"syscall"
 	"time"
 
@@ -46,9 +47,9 @@ func genC11CLI(r *core.RNG) *C11CLI {
 		case 0, 1:
 			p.Recips = append(p.Recips, fmt.Sprintf("x%d", r.Intn(world.NX25519)))
 		case 2, 3:
-			p.Recips = append(p.Recips, "plug-labels")
+			p.Recips = append(p.Recips, []string{"plug-labels", "plug-labels-msg"}[r.Intn(2)])
 		case 4:
-			p.Recips = append(p.Recips, "plug-plain")
+			p.Recips = append(p.Recips, []string{"plug-plain", "plug-plain-msg"}[r.Intn(2)])
 		default:
 			p.Recips = append(p.Recips, "plug-missing")
 		}
@@ -75,6 +76,10 @@ func (e C11) execCLI(p *C11CLI, c *core.Ctx) *core.Verdict {
 	os.Mkdir(bin, 0o755)
 	os.WriteFile(filepath.Join(bin, "age-plugin-simlabels"), []byte(fmt.Sprintf(c11PluginScript, " and the label postquantum", `-> labels postquantum\n\n`)), 0o755)
 	os.WriteFile(filepath.Join(bin, "age-plugin-simplain"), []byte(fmt.Sprintf(c11PluginScript, "", "")), 0o755)
+	// the same two, talking to the user first (a msg command, body "contacting token")
+	msg := `-> msg\nY29udGFjdGluZyB0b2tlbg\n`
+	os.WriteFile(filepath.Join(bin, "age-plugin-simlabelsmsg"), []byte(strings.Replace(fmt.Sprintf(c11PluginScript, " and the label postquantum", `-> labels postquantum\n\n`), "printf -- '", "printf -- '"+msg, 1)), 0o755)
+	os.WriteFile(filepath.Join(bin, "age-plugin-simplainmsg"), []byte(strings.Replace(fmt.Sprintf(c11PluginScript, "", ""), "printf -- '", "printf -- '"+msg, 1)), 0o755)
 	// model
 	labelled, unlabelled, missing := 0, 0, 0
 	argv := []string{ageBin, "-e"}
@@ -88,6 +93,12 @@ func (e C11) execCLI(p *C11CLI, c *core.Ctx) *core.Verdict {
 		case "plug-labels":
 			labelled++
 			text = ref.Bech32Encode("age1simlabels", []byte("simulated recipient"))
+		case "plug-labels-msg":
+			labelled++
+			text = ref.Bech32Encode("age1simlabelsmsg", []byte("simulated recipient"))
+		case "plug-plain-msg":
+			unlabelled++
+			text = ref.Bech32Encode("age1simplainmsg", []byte("simulated recipient"))
 		case "plug-plain":
 			unlabelled++
 			text = ref.Bech32Encode("age1simplain", []byte("simulated recipient"))
@@ -186,6 +197,9 @@ func (e C11) execCLI(p *C11CLI, c *core.Ctx) *core.Verdict {
 	}
 	if len(got) < 100 {
 		return core.Fail("C11.cli.refused_compatible", "%s: exit 0 but the output holds %d bytes", desc, len(got))
+	}
+	if magic := map[bool]string{true: "-----BEGIN AGE ENCRYPTED FILE-----\n", false: "age-encryption.org/v1\n"}[p.Armor]; !bytes.HasPrefix(got, []byte(magic)) {
+		return core.Fail("C11.cli.foreign_bytes_in_output", "%s: exit 0 and the output does not begin with the file: %q", desc, clipS(string(got)))
 	}
 	return nil
 }
